@@ -16,10 +16,7 @@ Definition run_read (E : env) (G : args) (c : cls) (en : entry) : frame -> outco
   end.
 Definition run_write (E : env) (G : args) : frame -> outcome := run0 E G structure_write.
 
-(* a structure as the library maintains it: every atom refers to the structure's lattice *)
-Definition wf_obj (o : obj) : bool := atoms_point_to_lattice_b o.
-(* a parse result as every registered parser builds it: a Structure instance, which always carries its own
-   lattice in the instance dictionary; a pdffit entry, when present, is a dictionary *)
-Definition wf_parsed (ps : parsed) : bool :=
-  match lookup "_lattice" (p_inst ps) with Some _ => true | None => false end &&
-  match lookup "pdffit" (p_inst ps) with Some (VDict _) | None => true | Some _ => false end.
+(* the pdffit entry of a parse result, when there is one, is a dictionary (what P_pdffit and P_discus build;
+   the other parsers leave it out).  `update` lets the last entry of a name win, hence the rev. *)
+Definition pdffit_entry_ok (ps : parsed) : bool :=
+  match lookup "pdffit" (rev (p_inst ps)) with Some (VDict _) | None => true | Some _ => false end.
